@@ -10,7 +10,7 @@ MODS = {"msgpack": "MC_SaveScript", "json": "MC_SaveJson", "xml": "MC_SaveXml"}
 
 def roundtrip_leg(chk, tier, arch):
     quick = tier == "quick"
-    inv = {"msgpack": "EncoderConsistent Export", "json": "SpecRoundTrip Export", "xml": "SpecRoundTrip Export"}[arch]
+    inv = {"msgpack": "EncoderConsistent Export ExportWide", "json": "SpecRoundTrip Export ExportWide", "xml": "SpecRoundTrip Export ExportWide"}[arch]
     cfg = mp.write_cfg("mc_rt_%s.cfg" % arch, "SPECIFICATION Spec\nCONSTANT MaxMembers = %d\nINVARIANTS %s\n" % (1 if quick else 3, inv))
     r = vlib.tlc(MODS[arch], cfg=cfg, timeout=3000, xmx="6g")
     chk.add_tlc("%s (round trip scenarios)" % MODS[arch], r)
